@@ -120,7 +120,9 @@ def _run_long(case, j):
     for t in range(32700, 32800):
         j.ok("pick is a farthest candidate (definition, all earlier selections)", h[a[t]] >= float(h.max()) * (1 - 1e-9), {"step": t})
         h = np.minimum(h, ((X - X[a[t]]) ** 2).sum(axis=1))
-    j.close("distance table after the last link == true min distance to the selected set", np.asarray(est.hausdorff_, dtype=float), h, 1e-9 * max(float(np.max(h)), 1e-12))
+    # the library forms squared distances from squared norms and inner products: rounding of the size eps x |x|^2,
+    # however small the distances that are left after 32800 of 33000 points have been selected
+    j.close("distance table after the last link == true min distance to the selected set", np.asarray(est.hausdorff_, dtype=float), h, 1e-9 * float(np.max(h)) + 1e-12 * float((X**2).sum(axis=1).max()))
     j.note("chains_beyond_32767_selections")
     j.nontrivial = True
     j.sample = {"points": 33000, "schedule": [32700, 32800]}
